@@ -126,6 +126,42 @@ func c08SwitchCases(s *source, fd *ast.FuncDecl, tagExpr string) []string {
 	return out
 }
 
+// c08IfElse lists, for every top-level if statement with an else branch, "if <cond> { <body> } else { <else> }" with
+// the statements of both branches (nested if headers flattened, white space normalised).
+func c08IfElse(s *source, fd *ast.FuncDecl) []string {
+	flat := func(b *ast.BlockStmt) string {
+		var parts []string
+		for _, st := range b.List {
+			switch x := st.(type) {
+			case *ast.IfStmt:
+				h := "if "
+				if x.Init != nil {
+					h += s.src(x.Init) + "; "
+				}
+				parts = append(parts, h+s.src(x.Cond)+" {…}")
+			default:
+				parts = append(parts, strings.Join(strings.Fields(s.src(st)), " "))
+			}
+		}
+		return strings.Join(parts, "; ")
+	}
+	var out []string
+	for _, st := range fd.Body.List {
+		is, ok := st.(*ast.IfStmt)
+		if !ok || is.Else == nil {
+			continue
+		}
+		line := "if " + s.src(is.Cond) + " { " + flat(is.Body) + " }"
+		if eb, ok := is.Else.(*ast.BlockStmt); ok {
+			line += " else { " + flat(eb) + " }"
+		} else {
+			line += " else …"
+		}
+		out = append(out, line)
+	}
+	return out
+}
+
 func init() {
 	register("C08", func(s *source, e *emitter) {
 		const fo = "core/mapping/fieldoptions.go"
@@ -171,6 +207,15 @@ func init() {
 		conds(ut, "validateNumberRange", "validateNumberRangeStmts")
 		conds(ut, "validateJsonNumberRange", "validateJsonNumberRangeStmts")
 		conds(ut, "validateValueRange", "validateValueRangeStmts")
+		conds(ut, "parseNumberRange", "parseNumberRangeStmts")
+		if fd := s.findFunc(ut, "parseNumberRange"); fd != nil {
+			e.stringList("parseNumberRangeDefaults", "if/else statements of parseNumberRange (bounds and their defaults)", c08IfElse(s, fd))
+		} else {
+			e.errors = append(e.errors, "function parseNumberRange not found")
+			e.stringList("parseNumberRangeDefaults", "MISSING", []string{"MISSING"})
+		}
+		conds(ut, "isLeftInclude", "isLeftIncludeStmts")
+		conds(ut, "isRightInclude", "isRightIncludeStmts")
 
 		if fd := s.findFunc(ut, "convertTypeFromString"); fd != nil {
 			e.stringList("convertCases", "cases of convertTypeFromString ("+ut+")", c08SwitchCases(s, fd, "kind"))
@@ -195,6 +240,36 @@ func init() {
 		e.shapeDef(s, um, "Unmarshaler.processNamedFieldWithValue", "withValueShape")
 		e.shapeDef(s, um, "Unmarshaler.processNamedField", "namedFieldShape")
 		e.shapeDef(s, fo, "fieldOptions.toOptionsWithContext", "toOptionsWithContextShape")
+		// containers (round 2: pointers to slices and maps are filled through their element type)
+		e.shapeDef(s, um, "Unmarshaler.fillSlice", "fillSliceShape")
+		e.shapeDef(s, um, "Unmarshaler.fillMap", "fillMapShape")
+		e.shapeDef(s, um, "Unmarshaler.fillSliceWithDefault", "fillSliceWithDefaultShape")
+		if fd := s.findFunc(um, "Unmarshaler.fillSliceWithDefault"); fd != nil {
+			var ds []string
+			ast.Inspect(fd.Body, func(n ast.Node) bool {
+				switch x := n.(type) {
+				case *ast.AssignStmt:
+					if len(x.Lhs) >= 1 && (s.src(x.Lhs[0]) == "cacheKey" || strings.Contains(s.src(x), "defaultCache[")) {
+						ds = append(ds, strings.Join(strings.Fields(s.src(x)), " "))
+					}
+				case *ast.ReturnStmt:
+					if strings.Contains(s.src(x), "fillSlice") {
+						ds = append(ds, strings.Join(strings.Fields(s.src(x)), " "))
+					}
+				}
+				return true
+			})
+			e.stringList("defaultCacheUse", "cache key, cache accesses and the final fillSlice call of fillSliceWithDefault", ds)
+		} else {
+			e.errors = append(e.errors, "function fillSliceWithDefault not found")
+			e.stringList("defaultCacheUse", "MISSING", []string{"MISSING"})
+		}
+		e.shapeDef(s, ut, "implicitValueRequiredStruct", "structRequiredShape")
+		// rest/httpx.Parse end to end
+		e.shapeDef(s, "rest/httpx/requests.go", "Parse", "httpParseShape")
+		e.shapeDef(s, "rest/httpx/util.go", "GetFormValues", "getFormValuesShape")
+		e.shapeDef(s, "rest/internal/encoding/parser.go", "ParseHeaders", "parseHeadersShape")
+		e.constDef(s, "rest/httpx/util.go", "arraySuffix", "arraySuffix")
 		// the unmarshalers of rest/httpx and rest/internal/encoding: key and options
 		uopts := func(rel, varName, lean string) {
 			f := s.file(rel)
